@@ -329,7 +329,23 @@ def _run_task(task):
     data = _make_data(task["data"], task["n_points"], task["n_samples"], task["seed"], task["outlier_prob"])
     crash = None
     try:
-        if task.get("mode") == "library":
+        if task.get("mode") == "direct":
+            # direct call histories of the children recursion on a small pool of arrays: prefixes, permutations, repeats,
+            # on a small grid and on grids at / above the FFT switch (1000 points)
+            import random as _random
+
+            r = _random.Random(task["seed"])
+            G = task["grid"]
+            ns = task["n_samples"]
+            pool = [np.log(np.array([[r.randint(8, 16) / 16.0 for _ in range(G)] for _ in range(ns)])) for _ in range(4)]
+            seqs = [[0], [0, 1], [1, 0], [0, 1, 2], [2, 0, 1], [0, 1], [0, 1, 2, 3], [3, 2, 1, 0], [1, 2], [1, 2, 3], [0, 0], [0, 0, 1], [2]]
+            r.shuffle(seqs)
+            seqs = [[0, 1], [0, 1, 2]] + seqs
+            with np.errstate(all="ignore"):
+                for sq in seqs:
+                    sh.tu.compute_log_S([pool[i].copy() for i in sq])
+            res = {"trace": [{"alpha": 1.0}]}
+        elif task.get("mode") == "library":
             # library-style history: particle-Gibbs sweeps with the concentration changed between sweeps and NO cache clear
             # (run.py clears the proposal caches every sweep, a library user need not)
             from pv.kernels import make_kernel, make_tree_dist
@@ -448,8 +464,47 @@ COQ_HEADER = "\n".join([
 
 
 # ---------------------------------------------------------------- the check
+def key_collision_search(ctx, n_arrays):
+    """The premise of C14_logS_key_sound / C14_conv_key_sound is that the digest separates the arrays seen in a process.
+    A 64-bit digest does so on 10^5 arrays (collision probability ~1e-9); a weaker key (truncated digest, digest of a
+    slice, of the shape only ...) collides on a sample this large.  Distinct arrays with equal cache keys are then shown
+    to make the memoised function return the wrong value."""
+    import numpy as np
+
+    import phyclone.tree.utils as tu
+    from phyclone.utils.utils import NumpyArrayListHasher, NumpyTwoArraysHasher
+
+    rng = np.random.default_rng(ctx.rng.randrange(10**9))
+    base = np.log(rng.integers(8, 17, size=(1, 6)) / 16.0)
+    seen1, seen2 = {}, {}
+    found = None
+    for i in range(n_arrays):
+        arr = np.log(rng.integers(1, 1 << 30, size=(1, 6)) / float(1 << 30))
+        k1 = NumpyArrayListHasher([arr]).h
+        k2 = NumpyTwoArraysHasher(arr, base).h
+        for seen, k, which in ((seen1, k1, "list_of_np_cache key"), (seen2, k2, "two_np_arr_cache key")):
+            other = seen.get(k)
+            if other is not None and not np.array_equal(other, arr):
+                found = (which, other, arr)
+                break
+            seen[k] = arr
+        if found:
+            break
+    ctx.case(key="key-collision-search", nontrivial=True, n=1, sample={"arrays_hashed": i + 1, "collision": bool(found)})
+    ctx.count("arrays_hashed_for_key_injectivity", i + 1)
+    if found:
+        which, a, b = found
+        tu.compute_log_S.cache_clear()
+        va = np.array(tu.compute_log_S([a]))
+        vb = np.array(tu.compute_log_S([b]))
+        wrong = not np.allclose(vb, tu.compute_log_S.__wrapped__(np.array([b]))) if hasattr(tu.compute_log_S, "__wrapped__") else None
+        ctx.fail("C14:cache-key:collision", "two different arrays get the same %s (after hashing %d arrays); memoised compute_log_S([b]) after compute_log_S([a]) %s" % (which, i + 1, "returns a's value" if np.allclose(va, vb) else "differs"),
+                 {"which": which, "a": a.tolist(), "b": b.tolist(), "memoised_b_equals_memoised_a": bool(np.allclose(va, vb)), "memoised_b_wrong": wrong})
+
+
 def run(ctx):
     coq.check_property_file(ctx)
+    key_collision_search(ctx, 150000 if ctx.quick else 600000)
     ctx.rule = (
         "run_phyclone_chain (burn-in 2, 5-8 sweeps, 6-10 particles, concentration update on, subtree updates 0/0.3) on 5-8 simulated data points with every cached entry point "
         "shadowed by memoised-vs-undecorated comparison at each call: proposals {bootstrap, semi-adapted, fully-adapted} x outliers {off, 0.1} x data {k/16 rational grids, "
@@ -470,6 +525,9 @@ def run(ctx):
         for op in (0.0, 0.1):
             for s in range(1 if ctx.quick else 6):
                 tasks.append({"mode": "library", "data": "rational", "proposal": proposal, "outlier_prob": op, "n_points": ctx.rng.randint(4, 6), "n_samples": 1, "num_particles": 8, "num_iters": 6 if ctx.quick else 12, "subtree": 0.0, "seed": ctx.rng.randrange(10**6)})
+    for G in ((12, 1000) if ctx.quick else (12, 101, 1000, 1024)):
+        for s in range(1 if ctx.quick else 4):
+            tasks.append({"mode": "direct", "grid": G, "data": "rational", "proposal": "direct-calls", "outlier_prob": 0.0, "n_points": 4, "n_samples": ctx.rng.randint(1, 2), "num_particles": 0, "num_iters": 0, "subtree": 0.0, "seed": ctx.rng.randrange(10**6)})
     tasks[0]["keylog"] = 1500
     ctx.log("%d shadowed chain runs" % len(tasks))
     total = {}
